@@ -47,6 +47,7 @@ class SampleFacts:
         self.reverts: List[Tuple[int, ast.Call]] = []
         self.decisions: List[Tuple[int, ast.Call, str, Optional[str]]] = []  # node, call, step kind, accepted var
         self.reads: List[Tuple[int, ast.AST]] = []  # cfg node, expression reading the state
+        self.helper_calls: Dict[int, Func] = {}
         for n, st in c.stmt.items():
             if st is None or isinstance(st, (ast.FunctionDef, ast.ClassDef)):
                 continue
@@ -74,6 +75,13 @@ class SampleFacts:
                 # calls of local closures that read the state
                 if isinstance(x, ast.Call) and isinstance(x.func, ast.Name) and x.func.id in self.closures:
                     self.reads.append((n, x))
+                # a method of the sampler handed the state: what it reads from it is read here
+                if isinstance(x, ast.Call) and isinstance(x.func, ast.Attribute) and U(x.func.value) in ("self", "cls") and x.func.attr not in STEP_FUNS \
+                        and any(self._is_state(a) for a in list(x.args) + [k.value for k in x.keywords]):
+                    hm = self.ix.method(self.f.cls, x.func.attr) if self.f.cls is not None else None
+                    if hm is not None and self.helper_reads(hm, x):
+                        self.helper_calls[id(x)] = hm
+                        self.reads.append((n, x))
 
     def closure_reads(self, name: str) -> List[ast.AST]:
         """Expressions naming the state variables read by local closure `name` (string templates)."""
@@ -91,6 +99,30 @@ class SampleFacts:
                     out.append(a0)
         return out
 
+    def helper_reads(self, hm: Func, call: ast.Call) -> List[ast.AST]:
+        """variable-name expressions a helper method reads from the state parameter it is handed (constant names only are meaningful to the callers)"""
+        params = [a.arg for a in hm.node.args.args]
+        if params and params[0] in ("self", "cls"):
+            params = params[1:]
+        spar = None
+        for i, a in enumerate(call.args):
+            if self._is_state(a) and i < len(params):
+                spar = params[i]
+        for k in call.keywords:
+            if self._is_state(k.value) and k.arg:
+                spar = k.arg
+        if spar is None:
+            return []
+        out = []
+        for x in ast.walk(hm.node):
+            if isinstance(x, ast.Subscript) and isinstance(x.value, ast.Name) and x.value.id == spar and isinstance(x.ctx, ast.Load):
+                out.append(x.slice)
+            if isinstance(x, ast.Call) and isinstance(x.func, ast.Attribute) and isinstance(x.func.value, ast.Name) and x.func.value.id == spar and x.func.attr in (
+                    "get_tensor_value", "get_tensor_values", "__getitem__") and x.args:
+                a0 = x.args[0]
+                out.extend(a0.elts if isinstance(a0, (ast.Tuple, ast.List)) else [a0])
+        return out
+
     def read_templates(self, cfg_node: int) -> List[ast.AST]:
         """All variable-name expressions read from the state at a CFG node."""
         out = []
@@ -99,6 +131,8 @@ class SampleFacts:
                 continue
             if isinstance(x, ast.Subscript):
                 out.append(x.slice)
+            elif id(x) in self.helper_calls:
+                out.extend(self.helper_reads(self.helper_calls[id(x)], x))
             elif isinstance(x.func, ast.Name):
                 out.extend(self.closure_reads(x.func.id))
             elif x.args:
